@@ -834,15 +834,15 @@ theorem C05_wsjson_unknown_ids_witness :
 Apache thrift's `THeaderProtocol` is a parameter `T` with the law `ThriftP.Lawful T fits` (what one flush
 emitted, followed by anything, is read back as the same message begin, payload and header-map lookups,
 leaving exactly the rest; `fits` = the frames inside the library's own limits).  Everything thriftproto
-itself does — which field goes where, the one-byte string of the codec id, the header keys,
+itself does — which field goes where, the `string(byte)` conversion of the codec id, the header keys,
 the counters and when `SetSize` is checked, the struct variant's requirements and what a failing `Pack`
 leaves on the connection — is concrete. -/
 
 /-- thrift-binary, one frame: for every lawful library, registry, limits, prior protocol-object state
     and every message of the supported field set `WFt` (message type CALL/REPLY/PUSH, int32 status code,
-    metadata an ordered multimap without an (empty, empty) pair, ≤ 255 lawful filters; ANY method,
-    status text, metadata bytes — also keys equal to the protocol's own header names — body and
-    body codec id 0..255), `Unpack` of what `Pack` wrote, followed by any bytes, yields the same eight fields and
+    metadata an ordered multimap without an (empty, empty) pair, codec id < 128, ≤ 255 lawful filters;
+    ANY method, status text, metadata bytes — also keys equal to the protocol's own header names —
+    and body), `Unpack` of what `Pack` wrote, followed by any bytes, yields the same eight fields and
     leaves exactly those bytes.  The size recorded on the read side is `pulled` (see below). -/
 theorem C05_thrift_roundtrip (T : ThriftP.THeader) (fits : ThriftP.TFrame → Prop) (hT : ThriftP.Lawful T fits)
     (reg : Registry) (limit limit' : Nat) (st : ThriftP.PState) (m : Msg) (rest : Bytes) (sz pulled : Nat)
@@ -949,24 +949,13 @@ theorem C05_thrift_unpack_size_readahead_witness :
     ThriftP.raRun 0 [(139, 140), (139, 140), (139, 137)] = some 0 ∧
     ThriftP.raRun 0 [(139, 139), (139, 139), (139, 139)] = some 0 := by decide
 
-/-- the body codec id (fix THRIFT3): `Pack` writes it as the one-byte string
-    `string([]byte{m.BodyCodec()})`, `Unpack` takes byte 0 of the header value — EVERY id 0..255 comes
-    back unchanged (`WFt` no longer restricts the codec, so `C05_thrift_roundtrip` and
-    `C05_thrift_stream` cover all of them). -/
-theorem C05_thrift_codec_roundtrip (c : UInt8) :
-    ThriftP.codecOf (ThriftP.codecStr c) = c ∧
-    ∀ m : Msg, m.codec = c → ThriftP.codecOf (ThriftP.getHdr (ThriftP.binHdr m) ThriftP.kCodec) = c := by
-  refine ⟨ThriftP.codecOf_codecStr c, ?_⟩
-  intro m h
-  rw [ThriftP.binHdr_codec, ThriftP.codecOf_codecStr, h]
-
-/-- before fix THRIFT3 the value was `string(m.BodyCodec())` (`ThriftP.codecStrOld`), a UTF-8 encoding:
-    a codec id ≥ 128 came back as the lead byte 0xC2 / 0xC3 (id 200 as 195); ids < 128 unchanged. -/
-theorem C05_thrift_codec_high_old_witness :
-    ThriftP.codecOf (ThriftP.codecStrOld 200) = 195 ∧
-    (∀ c : UInt8, ¬ c < 128 → ThriftP.codecOf (ThriftP.codecStrOld c) = (192 : UInt8) ||| (c >>> 6)) ∧
-    (∀ c : UInt8, c < 128 → ThriftP.codecOf (ThriftP.codecStrOld c) = c) :=
-  ⟨by decide, ThriftP.codecOf_codecStrOld_high, ThriftP.codecOf_codecStrOld⟩
+/-- `string(m.BodyCodec())` is a UTF-8 encoding: a codec id ≥ 128 comes back as the lead byte 0xC2 /
+    0xC3 (id 200 as 195); ids < 128 come back unchanged. -/
+theorem C05_thrift_codec_high_witness :
+    ThriftP.codecOf (ThriftP.codecStr 200) = 195 ∧
+    (∀ c : UInt8, ¬ c < 128 → ThriftP.codecOf (ThriftP.codecStr c) = (192 : UInt8) ||| (c >>> 6)) ∧
+    (∀ c : UInt8, c < 128 → ThriftP.codecOf (ThriftP.codecStr c) = c) :=
+  ⟨by decide, ThriftP.codecOf_codecStr_high, ThriftP.codecOf_codecStr⟩
 
 /-- a message type other than CALL / REPLY / PUSH is written as thrift type 0 and read back as PUSH. -/
 theorem C05_thrift_mtype_other_witness (t : UInt8) (h : ¬ (t = 1 ∨ t = 2 ∨ t = 3)) :
@@ -1023,12 +1012,12 @@ theorem C05_thrift_law_satisfiable : ThriftP.Lawful Drv.D05t.toyT (fun f => Num.
   Drv.D05t.toyT_lawful
 
 /-! Non-vacuity: a concrete non-trivial message (a metadata key equal to the protocol's own header name
-    `Tp-Status`, a repeated key, bytes 0 / 255 / `%` / `&` / `=` everywhere, codec id 200, a three-filter pipe) is in
+    `Tp-Status`, a repeated key, bytes 0 / 255 / `%` / `&` / `=` everywhere, a three-filter pipe) is in
     `WFt`, packs, and the model's executable library instance round-trips it. -/
 
 def exMsgT : Msg :=
   { seq := -2147483648, mtype := 3, method := [47, 97, 0, 255, 37], status := ⟨404, [78, 37, 0, 255, 38, 61], some []⟩,
-    md := [(ThriftP.kStatus, [99, 111, 100, 101, 61, 55]), ([107], [1]), ([107], []), ([], [61, 38, 255])], codec := 200,
+    md := [(ThriftP.kStatus, [99, 111, 100, 101, 61, 55]), ([107], [1]), ([107], []), ([], [61, 38, 255])], codec := 127,
     body := [31, 139, 8, 0, 255, 37, 38], pipe := [1, 2, 3] }
 
 example : ThriftP.WFt exMsgT := by decide
